@@ -4,6 +4,7 @@ import ConjureVerif.Model.Token
 import ConjureVerif.Model.Rid
 import ConjureVerif.Model.Plain
 import ConjureVerif.Model.Negotiate
+import ConjureVerif.Model.Body
 /-
 Line-protocol driver.  One operation per input line: `<property> <op> <args…>`; one output line per
 operation.  Imports models only (no Mathlib, no proofs), so it links as a native executable.
@@ -14,6 +15,8 @@ def dispatch (line : String) : String :=
   match line.trimAscii.toString.splitOn " " with
   | "C15" :: rest => SafeLong.handle rest
   | "C07" :: rest => Uri.handle rest
+  | "C06" :: rest => Body.handle rest
+  | "C18" :: rest => Body.handle rest
   | "C11" :: rest => Negotiate.handle rest
   | "C12" :: rest => Plain.handle rest
   | "C16" :: "token" :: rest => Token.handle ("token" :: rest)
